@@ -704,6 +704,17 @@ def rule_d1(ctx: Ctx) -> None:
     repo = ctx.repo
     for name, listing in (("pinword_contains", "pinword_occurrences"), ("pinword_contains_sp", "pinword_occurrences_sp")):
         f = repo.need_method("PinWords", name)
+        # an occurrence can be falsy (the empty tuple for the empty word, start index 0 for a strict factor): testing the
+        # truth value of the elements instead of their existence loses exactly those
+        try:
+            from ..skeleton import func_term
+
+            impl_t = func_term(f)
+        except AnalysisError:
+            impl_t = None
+        if isinstance(impl_t, tuple) and impl_t and impl_t[0] == "exists" and impl_t[2] == ("bv", 0, 0) and impl_t[1][0] == "iter" and isinstance(impl_t[1][1], tuple) and impl_t[1][1][0] == "call" and impl_t[1][1][2] == listing:
+            ctx.violation("C14-D1", f, f.node, f"{name} tests the truth value of the listed occurrences (any(...)) instead of their existence: an occurrence that is falsy – the empty tuple of the empty word, the start index 0 – is not counted")
+            continue
         ctx.run(check_skeleton, ctx, "C14-D1", f, [f"return next(cls.{listing}(a0, a1), False) is not False", f"return any(True for _ in cls.{listing}(a0, a1))"],
                 f"{name}(w, u) = NonEmpty({listing}(w, u))", required_calls=[listing])
     sp = repo.need_method("PinWords", "pinword_occurrences_sp")
